@@ -17,7 +17,7 @@ __CPROVER_assigns(n != 0: __CPROVER_object_upto(dst, n));
 /* memcmp: only memory safety and "0 => equal at the ghost index" */
 int verif_memcmp(const void* a, const void* b, size_t n)
 __CPROVER_requires(verif_exc != 0 || n == 0 || (__CPROVER_r_ok(a, n) && __CPROVER_r_ok(b, n)))   /* exception in flight: arguments are not evaluated in C++ */
-__CPROVER_ensures(__CPROVER_return_value == 0 ==> (g_mk < n ==> ((const uint8_t*)a)[g_mk] == ((const uint8_t*)b)[g_mk]))
+__CPROVER_ensures((verif_exc == 0 && __CPROVER_return_value == 0) ==> (g_mk < n ==> ((const uint8_t*)a)[g_mk] == ((const uint8_t*)b)[g_mk]))
 __CPROVER_assigns();
 
 #endif
